@@ -145,6 +145,9 @@ func (p *PackageProgress) stageStreamData() error {
 		}()
 		offset, dataLen := stream.GetDataOffsetAndLen()
 		pack.Offset = offset
+		if oldLen, ok := pack.OffsetRecord[offset]; ok {
+			pack.CurrentSize -= uint32(oldLen) // 重传的分片只统计一次
+		}
 		pack.OffsetRecord[offset] = dataLen
 		pack.OffsetDataRecord[offset] = p.historyData[headLen : headLen+bodyLen]
 		pack.CurrentSize += uint32(bodyLen)
@@ -155,6 +158,7 @@ func (p *PackageProgress) stageStreamData() error {
 				keys = append(keys, key)
 			}
 			sort.Ints(keys)
+			pack.StreamBody = nil // 完成后又收到重传分片的情况 重新组装
 			for _, key := range keys {
 				pack.StreamBody = append(pack.StreamBody, pack.OffsetDataRecord[key]...)
 			}
